@@ -802,6 +802,18 @@ def corpus():
     cs.append(dict(npool=3, shape="acyclic", ops=[
         ["SetRef", 0, 1, 1], ["Observe", 0, 0, tv], ["AddTrait", 0, 13], ["SetRef", 0, 13, 2]] + probes_for(3) + [
         ["SetRef", 0, 1, None]] + probes_for(3) + [["SetRef", 0, 13, None]] + probes_for(3)))
+    # an instance trait (add_trait) matching the filter is added AND populated before observe(): its value is walked
+    # at registration, re-hooked on reassignment, and cleaned up on un-observe
+    cs.append(dict(npool=4, shape="acyclic", ops=[
+        ["AddTrait", 0, 13], ["SetRef", 0, 13, 1], ["Observe", 0, 0, tv]] + probes_for(4) + [
+        ["SetRef", 0, 13, 2]] + probes_for(4) + [["Unobserve", 0, 0, tv]] + probes_for(4)))
+    # ONE set event that both removes and adds members (s ^= other / symmetric_difference_update): the removed member
+    # is un-hooked and the added one hooked by the same maintainer call
+    siv = parse_named("s.items.value")
+    cs.append(dict(npool=5, shape="acyclic", ops=[
+        ["SetCont", 0, 5, [1, 2], False], ["Observe", 0, 0, siv],
+        ["Cop", 5, 8, "symdiff", [[2, 3], True], [1, 1, [3]]]] + probes_for(5) + [
+        ["Cop", 5, 8, "symdiff", [[1, 4], False], [0, 1, [4]]]] + probes_for(5)))
     # a container default WITH content materialised after registration: its items are hooked, nobody is called
     cs.append(dict(npool=3, shape="acyclic", ops=[
         ["Observe", 0, 0, kiv], ["TouchItems", 0, 3, [1, 2]]] + probes_for(3) + [
@@ -951,6 +963,17 @@ def gen_dyn_case(rnd, ctx):
         m = mutation()
         if m:
             add(m)
+    if rnd.random() < 0.4:
+        # the dynamic trait exists and holds a value BEFORE observe() (walked at registration, not by a maintainer)
+        for o in ([0, 1] if g[0] == 1 else [0]):
+            if (o, d) not in have:
+                have.add((o, d))
+                add(["AddTrait", o, d])
+            v = rnd.randrange(o + 1, npool)
+            if ref.get((o, d)) != v:
+                ref[(o, d)] = v
+                add(["SetRef", o, d, v])
+        ctx.count("dyn-populated-before-observe")
     add(["Observe", 0, 0, g])
     probes()
     for _ in range(rnd.randint(2, 9)):
